@@ -84,6 +84,7 @@ type c11Result struct {
 	reqSentAt  time.Duration // first byte of the (relevant) request written
 	reqSentSeq int
 	respDone   bool
+	respAt     time.Duration // the complete response was in the client's hands
 	respErr    error
 	status     int
 	bodyLen    int
@@ -323,6 +324,7 @@ func runC11(env *core.Env, ci any) {
 					r.status, r.bodyLen = m.Status, len(m.Body)
 				}
 				r.respDone = err == nil
+				r.respAt = now()
 				if err == nil {
 					untilClosed(conn, br, r)
 				} else {
@@ -437,6 +439,11 @@ func runC11(env *core.Env, ci any) {
 						env.Fail("shutdown-inflight-cut", f, "request %s reached its origin at %v, before the shutdown request (%v); the origin answers after %v with %d bytes, but the client got respDone=%v status=%d body=%d err=%v", tok, logged.at, shutdownAt, time.Duration(cl.DelayMs)*time.Millisecond, cl.Body, r.respDone, r.status, r.bodyLen, r.respErr)
 					} else if r.closedAt < 0 {
 						env.Fail("shutdown-conn-left-open", f, "request %s completed during shutdown but the proxy never closed that connection", tok)
+					} else if r.kind == "slow-origin" && r.respAt > shutdownAt && r.closedAt-r.respAt > time.Second {
+						// "its response is delivered in full and the proxy then closes that connection": not when the drain
+						// limit happens to expire (judged only when the answer came at a later simulated time than the shutdown
+						// request: within one instant the response may have been written before shutdown began)
+						env.Fail("shutdown-conn-left-open", f+"/until-the-deadline", "request %s was answered at %v, during shutdown, but the proxy kept that connection open until %v (shutdown requested at %v, Run returned at %v)", tok, r.respAt, r.closedAt, shutdownAt, returnedAt)
 					}
 					env.Probe("inflight_completed_during_shutdown")
 				}
